@@ -166,6 +166,9 @@ def _vc_component(R: Report, pid: str, tier: str, only=None):
                                              "rule": "enumerated small inputs by parameter type", "bound": "list sizes <= 4"}
             else:
                 R.undecided.append({"what": q, "reason": reason})
+    for q_, c_ in sorted(REG.contracts.items()):
+        if not c_.verify:
+            R.assume(f"assumed contract (not verified): {q_.replace('pyvolutionary.', '')} - {c_.assumed_reason}")
     R.trust(*TRUSTED_VC)
     for t in sorted(tags):
         R.assume(TAG_TEXT.get(t, t))
